@@ -7,7 +7,7 @@ heap-of-iterators model and through the Lean immutable-list specification and re
 observation lists.  Comparison is step by step and stops at the first difference (after
 an exception the states may legitimately differ).
 """
-import gc, itertools, json, signal, sys, warnings
+import gc, itertools, json, operator, resource, signal, sys, warnings
 import common
 from common import err_kind
 from props import c03_flavours as FL
@@ -16,14 +16,29 @@ ID = "C03"
 RULE = ("random histories (length 3..14 quick, ..40 thorough) over a pool of finite / periodic Streams, "
         "copies, tee outputs and thubs; counts chosen relative to the remaining length (None, negative, 0, "
         "within, equal, beyond, x.5 / other floats, inf, -inf, nan); every history ends by draining every live "
-        "object; plus exhaustive short histories; a history is non-trivial when at least one step returned "
-        "items; distinct = distinct JSON history")
+        "object; plus exhaustive short histories.  Entry `hist`: the same histories with the caller's side — "
+        "every container handed out by take / peek / list() (default constructor, constructor=list, tuple, a "
+        "capped one) and every list he builds is kept, mutated in place (clear, reverse, pop, extend, overwrite) "
+        "and passed on to Stream() / append() / thub() (the same object several times, as itself or as tuple, "
+        "generator, iterator, deque, Iterable class, Stream subclass whose __iter__ is not _data); freshness of "
+        "returned containers, unchanged arguments and the final contents of every caller container are asserted; "
+        "items plain ints or tagged representations (int / float / Fraction / bool twins of one value, unhashable, "
+        "None); element functions as lambda / def / bound method / callable / partial; exhaustive "
+        "(call, count, constructor, mutation, following use) families; long runs (streams of 1000..9000 items with "
+        "counts around powers of two and beyond 4096, histories of 300..2000 steps, peek/take/append loops of "
+        "60..2000 rounds).  A history is non-trivial when at least one step returned items; distinct = distinct JSON")
 TRUSTED = [
     "hand-written Lean model ALV/Model/C03.lean of lazy_stream.Stream/StreamTeeHub/thub and lazy_itertools.tee "
     "(modelled, not verified: itertools.tee/chain/cycle/repeat, map/filter builtins, list iterators, the generator "
     "protocol with the pre-PEP-479 reading of next() inside a generator)",
     "element functions of map/filter are drawn from a fixed table of 6 maps / 7 predicates on ints (same table in "
     "ALV/Driver/C03.lean); the theorems quantify over arbitrary functions",
+    "the Lean model works with values: that a returned container is a new Python object, that an argument list is "
+    "the same object with the same items afterwards (identity facts) is asserted by the harness on every step "
+    "(alias / dirty / dirtyarg observations), not modelled; independence of a step from the calls on other "
+    "objects holds in the list model by construction (specStep touches one pool entry)",
+    "tagged items: harness/props/c03_flavours.py maps a model item (value, tag) to the Python object that stands "
+    "for it and back (rep / unrep); the model only moves items around and applies the element functions to the value",
 ]
 ASSUMPTIONS = [
     "an object whose iterator was handed to another object (Stream(s), s.append(t), thub(s, n), tee(s, n)) is not "
@@ -32,17 +47,30 @@ ASSUMPTIONS = [
     "list()/take(inf) only on finite streams (Python would not terminate otherwise)",
     "endless (periodic) sources are covered by the tie and by the Lean spec (eventually periodic sequences); the "
     "refinement theorems are stated for finite sources",
+    "a list that the caller has passed to Stream() / append() / thub() is not mutated by him afterwards (it may be "
+    "passed again, any number of times).  The list model takes the contents at the call (hist_ref_snapshot); the "
+    "real code reads a list argument lazily through a list iterator, and whether a later mutation reaches the "
+    "stream is not fixed by the property — such histories are cut at the mutation (compare: _lent_cut), so an "
+    "eager copy of the argument and a lazy read are both accepted.  What is fixed and checked: the streams never "
+    "change the list, every call sees the whole list, containers handed out are the caller's to change",
+    "element functions are pure (a closure mutated after map/filter, a function that reads another stream, a source "
+    "that raises are outside the immutable list model)",
+    "a Stream subclass overriding __iter__ is covered as an argument (Stream(x), append(x), thub(x, n), tee(x, n), "
+    "list(x), next(iter(x))); take / peek / copy / skip / ... called on such an instance read _data by design",
 ]
 
 MANIFEST = {
     "text": "Stream / StreamTeeHub / thub / tee as a heap of iterators (Lean model) refine the immutable list "
             "model for every operation and every history over finite sources (step_refines, run_refines, "
-            "independent, thub_uses, take_short, peek_pure, count rounding); periodic sources: spec prefix lemma, "
-            "bare periodic take, and the differential tie",
+            "independent, thub_uses, take_short, peek_pure, count rounding), also when the caller keeps, mutates "
+            "and passes on the containers he gets and gives (hist_refines, hist_results_owned, hist_lists_frame, "
+            "hist_mut_state, hist_ref_snapshot); periodic sources: spec prefix lemma, bare periodic take, and the "
+            "differential tie",
     "note": "defect D1 (take/peek/limit/skip past the end raise RuntimeError under PEP 479) is recorded as known "
             "with four signatures; proposed_fixes/D1-take-past-end.diff repairs it (check then prints no finding)",
-    "technique": "Lean 4 refinement proof (hub invariant buf ++ den parent = original, fuel-indexed next) + "
-                 "step-by-step differential histories impl vs model vs spec",
+    "technique": "Lean 4 refinement proof (hub invariant buf ++ den parent = original, fuel-indexed next; caller "
+                 "containers as a second heap of values) + step-by-step differential histories impl vs model vs "
+                 "spec with identity assertions on caller-owned containers",
 }
 
 MAPS = [lambda x: x + 1, lambda x: 2 * x, lambda x: -x, lambda x: x * x, lambda x: x % 3, lambda x: x - 7]
@@ -116,6 +144,8 @@ class Runner(object):
         self.tagged = bool(case.get("tagged"))
         self.cap = int(case.get("cap", CAP))
         self.pool, self.objs, self.want, self.given = [], [], [], []
+        self.tick = 0
+        self.arg_objs, self.arg_want = [], []
 
     # --- items ---------------------------------------------------------------------------
     def item_in(self, j):
@@ -146,11 +176,11 @@ class Runner(object):
         k = src["k"]
         fl = src.get("as")
         if k == "list":
-            return (FL.iterable_of([self.item_in(x) for x in src["xs"]], fl, self.Stream),)
+            return (FL.iterable_of(self.literal(src["xs"]), fl, self.Stream),)
         if k == "cyc":
             return tuple(self.item_in(x) for x in src["xs"])
         if k == "chain":
-            return tuple(FL.iterable_of([self.item_in(x) for x in xs], fl, self.Stream) for xs in src["xss"])
+            return tuple(FL.iterable_of(self.literal(xs), fl, self.Stream) for xs in src["xss"])
         if k == "const":
             return (self.item_in(src["v"]),)
         if k == "obj":
@@ -166,6 +196,14 @@ class Runner(object):
             self.given.append(arg)
             return (arg,)
         raise ValueError(k)
+
+    def literal(self, xs):
+        """a list written as an argument of a call: the caller keeps it too (it must stay what it is)"""
+        base = [self.item_in(x) for x in xs]
+        if self.hist:
+            self.arg_objs.append(base)
+            self.arg_want.append(list(base))
+        return base
 
     def moved(self, src):
         """after a successful use of an `obj` source: a plain Stream is dead from now on"""
@@ -189,14 +227,26 @@ class Runner(object):
             self.want.append(list(r))
         return ob
 
-    def dirty(self):
-        """caller containers that changed although the caller did not touch them"""
+    def _scan(self, objs, want):
         out = []
-        for j, (o, w) in enumerate(zip(self.objs, self.want)):
-            if len(o) != len(w) or any(a is not b for a, b in zip(o, w)):
+        n = len(objs)
+        if n <= 64 or self.tick % 64 == 0:
+            js = range(n)
+        else:                     # long histories: the newest ones and a rotating window every step, all of
+            a = (self.tick * 16) % n                      # them every 64 steps (and the final contents always)
+            js = list(range(a, min(a + 16, n))) + list(range(n - 16, n))
+        for j in js:
+            o, w = objs[j], want[j]
+            if len(o) != len(w) or any(map(operator.is_not, o, w)):
                 out.append(j)
-                self.want[j] = list(o)
+                want[j] = list(o)
         return out
+
+    def dirty(self):
+        """caller containers that changed although the caller did not touch them: (containers he got
+        or built and addresses by index, lists he wrote as literal arguments of a call)"""
+        self.tick += 1
+        return self._scan(self.objs, self.want), self._scan(self.arg_objs, self.arg_want)
 
     def lists(self):
         return [[self.item_out(x) for x in o] for o in self.objs]
@@ -213,6 +263,11 @@ class Runner(object):
             ob = {"err": "baditem:" + str(e)}
         except OverflowError as e:
             ob = {"err": "ENDLESS" if "ENDLESS" in str(e) else "OverflowError"}
+        except MemoryError:
+            global _HANGS, _MEMERR
+            _MEMERR = True
+            _HANGS += 1
+            ob = {"err": "ENDLESS"}
         except Exception as e:
             ob = {"err": err_kind(e)}
         if self.hist and op["op"] != "mut":
@@ -221,9 +276,11 @@ class Runner(object):
             except _Timeout:
                 raise
             except Exception as e:                # a caller container that cannot even be read any more
-                d = ["unreadable:" + err_kind(e)]
-            if d:
-                ob = dict(ob, dirty=d)
+                d = ["unreadable:" + err_kind(e)], []
+            if d[0]:
+                ob = dict(ob, dirty=d[0])
+            if d[1]:
+                ob = dict(ob, dirtyarg=True)
         return ob
 
     def _mut(self, op):
@@ -393,8 +450,10 @@ def impl(case):
     first, second = (3.0, 15.0) if _HANGS < 3 else ((1.0, 4.0) if _HANGS < 8 else (0.1, 0.4))  # real hangs stay affordable
     if case.get("slow"):
         first, second = first * 4, second * 2
+    global _MEMERR
+    _MEMERR = False
     out, timed_out = _run_history(case, first)
-    if timed_out:
+    if timed_out and not _MEMERR:
         out, timed_out = _run_history(case, second)
         if timed_out:
             _HANGS += 1
@@ -402,6 +461,15 @@ def impl(case):
 
 
 _HANGS = 0
+_MEMERR = False
+
+
+def _vm_bytes():
+    try:
+        with open("/proc/self/statm") as f:
+            return int(f.read().split()[0]) * resource.getpagesize()
+    except Exception:
+        return 1 << 30
 
 
 def _run_history(case, budget):
@@ -413,6 +481,14 @@ def _run_history(case, budget):
     gc_was = gc.isenabled()
     gc.disable()                      # a full collection inside the timed region could look like a hang
     signal.setitimer(signal.ITIMER_VIRTUAL, budget)
+    # list() / tuple() of an endless C-level iterator (what a broken take / limit may hand to the default
+    # constructor) never runs Python code, so no alarm can stop it: it must die of MemoryError instead
+    soft, hard = resource.getrlimit(resource.RLIMIT_AS)
+    room = (384 << 20) if _HANGS < 3 else (96 << 20)
+    try:
+        resource.setrlimit(resource.RLIMIT_AS, (_vm_bytes() + room, hard))
+    except (ValueError, OSError):
+        pass
     try:
         with warnings.catch_warnings():
             warnings.simplefilter("ignore")
@@ -440,6 +516,10 @@ def _run_history(case, budget):
         steps.append({"hang": True})
     finally:
         signal.setitimer(signal.ITIMER_VIRTUAL, 0)
+        try:
+            resource.setrlimit(resource.RLIMIT_AS, (soft, hard))
+        except (ValueError, OSError):
+            pass
         signal.signal(signal.SIGVTALRM, old)
         sys.unraisablehook = hook
         if gc_was:
@@ -755,7 +835,7 @@ def _gen_op(rng, sim, wild):
         return {"op": o, "i": i, "n": _count(rng, sim, i, wild, for_round=True)}
     if o == "append":
         src = _new_src(rng, sim)
-        if src["k"] == "obj" and src["j"] == i:
+        if src["k"] == "obj" and src["j"] == i and obj["kind"] != "h":     # (a hub appended to itself: two uses)
             src = {"k": "list", "xs": _vals(rng, 2, sim)}
         return {"op": o, "i": i, "src": src}
     if o == "map":
@@ -999,7 +1079,10 @@ POW2 = [63, 64, 65, 127, 128, 129, 255, 256, 257, 511, 512, 513, 1023, 1024, 102
         4095, 4096, 4097]
 
 
-def _long_stream(rng, tier):
+BIG = [4095, 4096, 4097, 4098, 5000, 8191, 8192, 8193]
+
+
+def _long_stream(rng, tier, turn=0):
     """thousands of items, counts around powers of two, few tees (every tee buffer stays in the
     model's heap), exact integer items all different"""
     sim, ops = Sim(), []
@@ -1007,17 +1090,30 @@ def _long_stream(rng, tier):
     def add(op):
         ops.append(op)
         return sim.apply(op)
-    N = rng.choice([1023, 1024, 1025, 2049, 4095, 4096, 4097, rng.randint(1500, 5000)])
+    N = rng.choice([4095, 4096, 4097, 4098, 4100, 5000, 8192, 8193, 9000, rng.randint(4000, 9000), rng.randint(1000, 9000)])
     add({"op": "new", "src": {"k": "list", "xs": list(range(N)), "as": rng.choice(["list", "tuple", "gen", "iter"])}})
-    tees = 3
-    for _ in range(rng.randint(8, 20)):
+    tees = 3 if N <= 4200 else 0        # (a tee buffer over n items costs the Lean model n*n/2 steps)
+    # every case starts with one call whose count lies beyond 4096 (the kinds take turns)
+    big = rng.choice(BIG) if rng.random() < 0.8 else rng.choice(POW2[6:])
+    kind = ["take", "limit", "skip", "peek"][turn % 4]
+    if kind == "peek" and tees == 0:
+        kind = "take"
+    if kind in ("take", "peek"):
+        add({"op": kind, "i": 0, "n": cnt_int(big) if rng.random() < 0.8 else cnt_flt(big + 0.5),
+             "ctor": rng.choice(["list", "list", "cap", "tuple"])})
+        tees -= kind == "peek"
+    else:
+        add({"op": kind, "i": 0, "n": cnt_int(big) if rng.random() < 0.8 else cnt_flt(big + 0.25)})
+        if kind == "limit":
+            add({"op": "take", "i": 0, "n": cnt_int(big + rng.choice([-1, 0, 1])), "ctor": "list"})
+    for _ in range(rng.randint(6, 16)):
         live = sim.live("s")
         if not live:
             break
         i = rng.choice(live)
         rem = sim.remaining(i)
-        c = rng.choice(POW2)
-        if rem is not None and rem > 0 and rng.random() < 0.5:
+        c = rng.choice(POW2 if rng.random() < 0.7 else POW2[-3:] + [4098, 8191, 8192, 8193])
+        if rem is not None and rem > 0 and rng.random() < 0.35:
             c = min(c, rem + rng.choice([-1, 0, 1]))
         o = rng.choice(["take"] * 6 + ["peek", "copy", "skip", "skip", "limit", "map", "filter", "append", "mut",
                         "next", "thub"])
@@ -1078,7 +1174,7 @@ def _peek_loop(rng, n):
 def generate(rng, tier, scale=1):
     cases = []
     if tier == "quick":
-        nrand, maxlen, depth, nhist, nlong = 4000 * scale, 14, 3, 4000 * scale, 4 * scale
+        nrand, maxlen, depth, nhist, nlong = 4000 * scale, 14, 3, 4000 * scale, 8 * scale
     else:
         nrand, maxlen, depth, nhist, nlong = 40000 * scale, 40, 4, 40000 * scale, 40 * scale
     if scale == 1:
@@ -1092,11 +1188,13 @@ def generate(rng, tier, scale=1):
         cases.append(_hist(rng, rng.randint(3, maxlen), wild, tagged=(k % 3 == 2)))
     for k in range(nhist // 10):
         cases.append(_shared_case(rng, tagged=(k % 3 == 2)))
+    turn = rng.randrange(4)
     for k in range(nlong):
-        cases.append(_long_stream(rng, tier))
+        cases.append(_long_stream(rng, tier, turn + 2 * k))
+        cases.append(_long_stream(rng, tier, turn + 2 * k + 1))
         cases.append(_long_history(rng, tier))
     for k in range(max(nlong // 2, 1)):
-        cases.append(_peek_loop(rng, rng.choice([30, 60]) if tier == "quick" else rng.choice([60, 120, 200])))
+        cases.append(_peek_loop(rng, rng.choice([60, 200, 500]) if tier == "quick" else rng.choice([500, 1000, 2000])))
     return cases
 
 
@@ -1179,7 +1277,7 @@ def nontrivial(case, io):
 def _summ(x):
     if x is None:
         return "nothing"
-    for k in ("alias", "dirty", "ctype"):
+    for k in ("alias", "dirty", "dirtyarg", "ctype"):
         if k in x:
             return k
     if "err" in x:
@@ -1367,6 +1465,15 @@ def _untag(case):
 
 
 def shrink(case):
+    """candidates in the order: prefixes, blocks of steps, flavours, single steps, smaller operands
+    (counts and lists by powers of two first).  Big cases (long runs) offer fewer candidates per
+    round: each costs the model up to a second"""
+    limit = 200 if len(json.dumps(case)) < 20000 else 48
+    for c in itertools.islice(_shrink(case), limit):
+        yield c
+
+
+def _shrink(case):
     ops = case["ops"]
     n = len(ops)
     seen = set()
@@ -1425,7 +1532,8 @@ def shrink(case):
                 continue
             xs = holder["xs"]
             floor = 2 if holder.get("k") == "cyc" else 0
-            for ys in ([xs[:len(xs) // 2]] if len(xs) > 8 else []) + [xs[:-1], xs[1:]]:
+            big = [xs[:len(xs) - (1 << b)] for b in range(12, 0, -1) if (1 << b) < len(xs)] if len(xs) > 8 else []
+            for ys in ([xs[:len(xs) // 2]] if len(xs) > 8 else []) + big + [xs[:-1], xs[1:]]:
                 if len(ys) >= floor and len(ys) < len(xs):
                     h2 = dict(holder, xs=ys)
                     c = put(h2 if key is None else dict(op, **{key: h2}))
@@ -1446,7 +1554,8 @@ def shrink(case):
                 yield c
         cnt = op.get("n")
         if isinstance(cnt, dict) and cnt["t"] == "int" and cnt["v"] > 0:
-            for v in ([cnt["v"] // 2] if cnt["v"] > 8 else []) + [cnt["v"] - 1]:
+            big = [cnt["v"] - (1 << b) for b in range(12, 0, -1) if (1 << b) < cnt["v"]] if cnt["v"] > 8 else []
+            for v in ([cnt["v"] // 2] if cnt["v"] > 8 else []) + big + [cnt["v"] - 1]:
                 c = put(dict(op, n=cnt_int(v)))
                 if emit(c):
                     yield c
